@@ -11,6 +11,7 @@ import Driver.Persister
 import Driver.Persist
 import Driver.ProcStack
 import Driver.Comms
+import Driver.Status
 
 /-- `pmodel <component>`: line-protocol driver over the executable model definitions. -/
 def main (args : List String) : IO UInt32 := do
@@ -29,4 +30,5 @@ def main (args : List String) : IO UInt32 := do
   | ["restore"] => DrvPersist.mainRestore; return 0
   | ["procstack"] => DrvProcStack.main; return 0
   | ["comms"] => DrvComms.main; return 0
-  | _ => IO.eprintln "usage: pmodel <comms|expose|fault|futures|launcher|outline|persist|persister|pm|ports|portsout|procstack|restore|savable>"; return 2
+  | ["status"] => DrvStatus.main; return 0
+  | _ => IO.eprintln "usage: pmodel <comms|expose|fault|futures|launcher|outline|persist|persister|pm|ports|portsout|procstack|restore|savable|status>"; return 2
